@@ -1224,10 +1224,15 @@ class AsyncBackgroundBatcher(Generic[A_contra, R_co]):
                         fut.set_exception(result)
                     else:
                         fut.set_result(result)
-        except Exception as e:
+        except BaseException as e:
+            # Also covers errors which aren't an Exception, like the
+            # CancelledError of something awaited by the function:
+            # the callers must not be left waiting forever.
             logger.debug("Exception while processing batch", exc_info=True)
             for fut in futs.values():
                 fut.set_exception(e)
+            if not isinstance(e, Exception):
+                raise  # Don't swallow cancellation, interrupts, etc.
             return
 
         if futs:
